@@ -83,6 +83,10 @@ pub enum Case {
         /// record comes back under the name it was written with
         #[serde(default)]
         twin: bool,
+        /// every second extension record spells the registered namespace name with other letter case: the writer
+        /// refuses the prototype, or the file reads back with each record under the name it was written with
+        #[serde(default)]
+        other_case: bool,
     },
 }
 
@@ -394,7 +398,7 @@ impl Check for C18 {
             let k = 1 + s.below(3) as usize;
             let proto_names = (0..k).map(|_| if s.chance(2, 3) { crate::adapt::STD_NAMES[s.below(20) as usize].0.to_string() } else { crate::gen::ext_name(s) }).collect();
             let suffix = if s.chance(1, 4) { Some(s.pick(&[".x", "\u{e9}", "-2.b", ".", "\u{b7}1"]).to_string()) } else { None };
-            Case::ProtoExt { proto_names, n: s.below(20) as u32, seed: s.u64(), suffix, nested_ns: s.chance(1, 5), twin: s.chance(1, 6) }
+            Case::ProtoExt { proto_names, n: s.below(20) as u32, seed: s.u64(), suffix, nested_ns: s.chance(1, 5), twin: s.chance(1, 6), other_case: s.chance(1, 8) }
         } else {
             let program = small_program(s);
             let k = 1 + s.below(4) as usize;
@@ -507,7 +511,7 @@ impl Check for C18 {
                     }
                 }
             }
-            Case::ProtoExt { proto_names, n, seed, suffix, nested_ns, twin } => {
+            Case::ProtoExt { proto_names, n, seed, suffix, nested_ns, twin, other_case } => {
                 let mut proto: Vec<Rec> = ["cartesianX", "cartesianY", "cartesianZ"].iter().map(|n| Rec { prefix: None, name: n.to_string(), ty: RType::Single { min: None, max: None } }).collect();
                 let mut used: Vec<String> = Vec::new();
                 for (i, name) in proto_names.iter().enumerate() {
@@ -541,6 +545,14 @@ impl Check for C18 {
                         }
                     }
                 }
+                let other_case_active = *other_case && !twin_active && suffix.is_none() && !*nested_ns && !used.is_empty();
+                if other_case_active {
+                    for (k, r) in proto.iter_mut().filter(|r| r.prefix.is_some()).enumerate() {
+                        if k % 2 == 0 {
+                            r.prefix = Some(["Vfx", "VFX", "vfX"][k / 2 % 3].into());
+                        }
+                    }
+                }
                 let uri = if twin_active { "urn:verif:foreign-extension?a=1&b=<2>" } else { URI };
                 let mut p = Program {
                     guid: "{c18}".into(),
@@ -559,6 +571,10 @@ impl Check for C18 {
                 }
                 if twin_active && tr.error.as_ref().map(|(c, _)| c == "register_extension").unwrap_or(false) {
                     v.nt("second_name_for_one_extension_url_refused");
+                    return v;
+                }
+                if other_case_active && tr.error.as_ref().map(|(c, _)| c == "add_pointcloud").unwrap_or(false) {
+                    v.nt("namespace_name_in_other_letter_case_refused");
                     return v;
                 }
                 if let Some((c, e)) = &tr.error {
